@@ -120,6 +120,12 @@ package sensors
 //@   ensures id in sensorReg && id in sensorFinite ==> fin(avgOf(s))
 //@   modifies nothing
 //@   trusted "registry lookup (concurrent map): a registered id yields its well-formed sensor object"
+// body side: the concurrent map (generic library code, weakest contract) is addressed with the id as given
+//@ impl func GetSensor
+//@   params (id)
+//@   props C06 C08
+//@   atcall[C06.regkey C08] Get: key == id
+//@   modifies anything
 
 //@ func NewSensor
 //@   params (config)
